@@ -636,6 +636,12 @@ def termination(ctx):
                             s = strip_refs(call_args(a)[0])
                             if any(is_call(c.term, "String::is_empty", "str>::is_empty") and strip_refs(call_args(c.term)[0]) == s and c.fact == ("eq", False) for c in p.conds()):
                                 pos = True
+                            # the literal of the matched entry of a constant table none of whose literals is empty
+                            from rules.c01 import table_guard
+                            for f_ in [x for x in subterms(s) if is_call(x, "Iterator>::find")]:
+                                tg = table_guard(ctx, ("discr", f_))
+                                if tg is not None and all(len(l) > 0 for l, _ in tg["entries"]) and isinstance(s, tuple) and s[0] == "field" and s[2] == 0:
+                                    pos = True
                     if not (base_ok and pos and all((const_int(a) is None or const_int(a) >= 0) for a in adds)):
                         ok = False
                         worst = named(body, v)[:120]
